@@ -27,8 +27,8 @@ ASSUMPTIONS = [
     'the empty needle occurs in every string, so :-soup-contains("") holds for every element and -own("") for every element with a text child',
 ]
 
-TEXTS = ['alpha', 'be ta', 'gam"ma', "del'ta", 'eps\\ilon', 'ze\nta', ' ', '\n', 'x', 'xy', 'yx', '\U0001f600z', 'éa', 't', '', 'a,b', 'a)b', '(']
-NAMES = ['p', 'div', 'span', 'b', 'li']
+TEXTS = ['\U0010ffffq', 'q\ufffd', 'alpha', 'be ta', 'gam"ma', "del'ta", 'eps\\ilon', 'ze\nta', ' ', '\n', 'x', 'xy', 'yx', '\U0001f600z', 'éa', 't', '', 'a,b', 'a)b', '(']
+NAMES = ['p', 'div', 'span', 'b', 'li', 'rt', 'rp', 'ruby']
 KINDS = ['text', 'text', 'text', 'blank', 'comment', 'cdata', 'pi', 'doctype', 'decl']
 
 
@@ -141,7 +141,7 @@ def gen_needle(rng, case):
         return '', 'empty'
     if r < .8:
         return rng.choice(TEXTS), 'vocab'
-    return rng.choice(['zzz', '"', "'", '\\', '\\\\', '\n', 'a"b', "'a'", '"a"', 'a\\"', '\U0001f600', ' i', ')', ',', 'x,y', '*/', '\\"']), 'hostile'
+    return rng.choice(['\U0010ffff', '\ufffd', '\U0010ffffq', 'zzz', '"', "'", '\\', '\\\\', '\n', 'a"b', "'a'", '"a"', 'a\\"', '\U0001f600', ' i', ')', ',', 'x,y', '*/', '\\"']), 'hostile'
 
 
 def plan(tier, seed):
